@@ -124,7 +124,7 @@ func TestC18Positions(t *testing.T) {
 		reps = 25
 	}
 	seen := map[string]bool{}
-	for _, kind := range []string{KMissing, KDangling, KUnread, KVanish, KDir, KEmpty, KSymlink} {
+	for _, kind := range []string{KMissing, KDangling, KUnread, KReadFail, KVanish, KDir, KEmpty, KSymlink} {
 		for n := 1; n <= 6; n++ {
 			for pos := 0; pos < n; pos++ {
 				for _, procs := range procChoices {
@@ -155,9 +155,14 @@ func TestC18Positions(t *testing.T) {
 			}
 		}
 	}
-	// empty list, single entries
+	// empty list, single entries, lists made of directories only
 	for _, procs := range procChoices {
 		runList(t, s, root, ListCase{GoMaxProcs: procs}, seen)
+		runList(t, s, root, ListCase{Kinds: []string{KDir, KDir}, GoMaxProcs: procs}, seen)
+		runList(t, s, root, ListCase{Kinds: []string{KDir, KDir, KDir}, GoMaxProcs: procs}, seen)
+		runList(t, s, root, ListCase{Kinds: []string{KDir}, Dups: []int{0, 0}, GoMaxProcs: procs}, seen)
+		runList(t, s, root, ListCase{Kinds: []string{KDir, KEmpty, KDir}, GoMaxProcs: procs}, seen)
+		runList(t, s, root, ListCase{Kinds: []string{KRegular}, Dups: []int{0}, GoMaxProcs: procs}, seen)
 	}
 	s.Extra("positions_exhaustive_up_to", 6)
 	if s.Failed() {
@@ -165,7 +170,7 @@ func TestC18Positions(t *testing.T) {
 	}
 }
 
-var c18Kinds = []string{KRegular, KRegular, KRegular, KRegular, KEmpty, KDir, KMissing, KDangling, KSymlink, KVanish, KUnread}
+var c18Kinds = []string{KRegular, KRegular, KRegular, KRegular, KEmpty, KDir, KDir, KMissing, KDangling, KSymlink, KVanish, KUnread, KReadFail}
 
 func genList(t *rapid.T) ListCase {
 	cpu := runtime.NumCPU()
